@@ -12,10 +12,10 @@
       The phased list may be LARGER than the batch evasion list: after skipping a PV move that was
       the last move of its stage, GetNextMove refills with evasion = false (movegen.go:283), so
       the next stage is generated unfiltered.
-    - [od_chess_evasion_legal]  in check, with a legality oracle that agrees with [Rules.is_legal]:
-      the legal moves among the handed out ones are, as a multiset, the legal move list
-      (provided the PV move, if selected, is an evasion batch move or not pseudo-legal...
-      see the statement: no move is lost, none invented except a selected alien PV move). *)
+    - [od_chess_evasion_legal]  in check, with a legality oracle that agrees with [Rules.is_legal]
+      on pseudo-legal moves, and a PV move that (if selected) is a move of the evasion batch list:
+      no move is handed out twice and the legal moves among the handed out ones are, as a
+      multiset, exactly the legal move list. *)
 From Coq Require Import NArith ZArith List Bool Lia ZifyN ZifyBool Permutation.
 From FG Require Import Word64 Geom Tables TablesCorrect ShiftCorrect Rules Oracle BitView
                        AttacksImpl AttacksLemmas AttacksProofs AttacksMoves AttacksCheckProofs AttacksLegalProofs
@@ -285,6 +285,38 @@ Proof.
   - intros Himp. apply H4. intros Hsel. apply Pe. now apply Himp.
 Qed.
 
+(* in check: the legal moves among the handed out ones are exactly the legal move list *)
+Theorem od_chess_evasion_legal (legal : N -> bool) st : od_start_ok env st -> in_check p = true ->
+  (forall m, In m (pseudo p) -> legal (code m) = is_legal p m) ->
+  (* the PV move, if it is handed out first, is a move of the evasion batch list
+     (e.g. no PV move set, or a legal move of the position) *)
+  (pv_sel env 3 (od_pv st) = true -> exists le, gen_pseudo prom_nq v 3 true = Some le /\ In (od_pv st) le) ->
+  exists st' out,
+    od_drain (S (length out)) env 3 true st = Some (st', out) /\ NoDup out /\
+    Permutation (filter legal out) (map code (Rules.legal p)).
+Proof.
+  intros Hs Hchk Hag Hpv.
+  destruct (od_chess_evasion 3 st Hs) as (le & l & st' & out & Hle & Hl & Hd & H1 & H2 & H3 & H4).
+  destruct (evasion_complete prom_nq p legal Hlegal Hchk Hag) as (le' & l' & Hle' & Hl' & Heq & Pleg).
+  rewrite Hle in Hle'. apply some_inj in Hle'. subst le'. rewrite Hl in Hl'. apply some_inj in Hl'. subst l'.
+  assert (Hpv' : pv_sel env 3 (od_pv st) = true -> In (od_pv st) le).
+  { intros Hsel. destruct (Hpv Hsel) as (le2 & E2 & Hin). rewrite Hle in E2. apply some_inj in E2. now subst le2. }
+  pose proof (H4 Hpv') as Hnd.
+  exists st', out. split; [exact Hd|]. split; [exact Hnd|].
+  assert (Hsub : forall x, In x le -> In x l).
+  { destruct (gen_pseudo_evasion_filter prom_nq p Hlegal 3) as (l2 & A & B). rewrite Hl in A. apply some_inj in A. subst l2.
+    rewrite Hle in B. apply some_inj in B. subst le. intros x Hx. now apply filter_In in Hx. }
+  apply NoDup_Permutation.
+  - now apply NoDup_filter.
+  - apply (Permutation_NoDup Pleg). apply NoDup_filter. now apply (evasion_nodup prom_nq p Hlegal 3).
+  - intros x. rewrite filter_In. split.
+    + intros [Hx Hlx]. apply (Permutation_in _ Pleg). rewrite Heq. apply filter_In. split; [|exact Hlx].
+      destruct (H1 x Hx) as [[Hsel ->]|Hx']; [apply Hsub; now apply Hpv'|exact Hx'].
+    + intros Hx. apply (Permutation_in _ (Permutation_sym Pleg)) in Hx. apply filter_In in Hx as [Hx Hlx].
+      split; [now apply H2|exact Hlx].
+Qed.
+
 End ODEvasion.
 
 Print Assumptions od_chess_evasion.
+Print Assumptions od_chess_evasion_legal.
